@@ -190,6 +190,10 @@ type Lab struct {
 	OnProbe  func(ProbeInfo) ProbeAction // called by every verif.Probe() invocation before its hook_start record
 	OnRecord func(*Record)               // called for every record, under the lab's mutex, after Seq/G were set
 	StampG   bool                        // stamp every record with the id of the goroutine that wrote it
+	// OnTaskCommand plays the task manager for the REAL transitions (environment.NewStartActivityTransition
+	// etc. built on W.In.Taskman): called on the fake task manager's goroutine for every TransitionTasks
+	// message of this environment; the returned error is reported back as "tasks failed to transition".
+	OnTaskCommand func(*task.TaskmanMessage) error
 
 	hangAfter       time.Duration
 	hung            bool
